@@ -731,6 +731,13 @@ class Case:
         check(self, node)
         recheck_operands(self, node)
         self.add(node)
+        # a corrupted / violating object taints everything that was built from it (the pool is in creation order)
+        bad_ids = {id(n.ufl) for n in self.pool if n.bad and n.kids}
+        if bad_ids:
+            for n in self.pool:
+                if not n.bad and (any(k.bad for k in n.kids) or (n.kids and id(n.ufl) in bad_ids)):
+                    n.bad = True
+                    bad_ids.add(id(n.ufl))
 
 
 # ------------------------------------------------------------------------------------------- the oracle
